@@ -77,6 +77,10 @@ pub struct Profile {
     /// inline conditionals inside sequence alternatives and sequences inside conditional
     /// branches (C01)
     pub nested_inline: bool,
+    /// some forward diverts go to a labelled gather inside the target knot instead of its top (C01)
+    pub label_diverts: bool,
+    /// multi-line sequence blocks `{ stopping: - a - b }` (C01)
+    pub block_sequences: bool,
 }
 
 impl Default for Profile {
@@ -106,6 +110,8 @@ impl Default for Profile {
             rich_choice_text: false,
             no_tags_in_functions: false,
             nested_inline: false,
+            label_diverts: false,
+            block_sequences: false,
         }
     }
 }
@@ -169,6 +175,8 @@ pub struct Gen<'a> {
     lists: Vec<ListDecl>,
     externals: Vec<External>,
     labels: Vec<String>,
+    /// labelled gathers: (knot index, full path)
+    gather_labels: Vec<(usize, String)>,
     nlabel: usize,
     ntag: usize,
 }
@@ -183,6 +191,7 @@ pub fn gen_program(tape: &[u16], profile: &Profile) -> Program {
         lists: vec![],
         externals: vec![],
         labels: vec![],
+        gather_labels: vec![],
         nlabel: 0,
         ntag: 0,
     };
@@ -444,6 +453,66 @@ impl<'a> Gen<'a> {
                 ret: plan.ret.clone(),
                 pure_fn: self.p.pure_functions,
             });
+        }
+        if self.p.label_diverts && !self.gather_labels.is_empty() {
+            // forward diverts to a knot may enter it at one of its labelled top-level gathers
+            // (only into knots that declare no temporaries: jumping over a declaration leaves
+            // the temporary undeclared, which is the subject of C13's warnings, not of this pass)
+            let labels: Vec<(usize, String)> = self
+                .gather_labels
+                .iter()
+                .filter(|(k, _)| !prog.knots[*k].body.stmts.iter().any(|s| matches!(s, Stmt::TempDecl(..))))
+                .cloned()
+                .collect();
+            let knot_index: std::collections::HashMap<String, usize> =
+                self.knots.iter().enumerate().map(|(i, k)| (k.name.clone(), i)).collect();
+            // (decisions of this pass come from a generator seeded by the start of the tape: the
+            // tape itself is usually used up by now)
+            struct Lcg(u64);
+            impl Lcg {
+                fn next(&mut self) -> u64 {
+                    self.0 = self.0.wrapping_mul(6364136223846793005).wrapping_add(1442695040888963407);
+                    self.0 >> 33
+                }
+                fn chance(&mut self, num: u64, den: u64) -> bool {
+                    self.next() % den < num
+                }
+                fn pick(&mut self, n: usize) -> usize {
+                    (self.next() % n.max(1) as u64) as usize
+                }
+            }
+            fn visit(b: &mut Block, from: Option<usize>, labels: &[(usize, String)], ki: &std::collections::HashMap<String, usize>, t: &mut Lcg) {
+                for s in b.stmts.iter_mut() {
+                    if let Stmt::Divert(target, args) = s {
+                        if args.is_empty() {
+                            if let Some(&k) = ki.get(target.as_str()) {
+                                if from.map(|f| k > f).unwrap_or(true) {
+                                    let c: Vec<&(usize, String)> = labels.iter().filter(|(lk, _)| *lk == k).collect();
+                                    if !c.is_empty() && t.chance(3, 4) {
+                                        *target = c[t.pick(c.len())].1.clone();
+                                    }
+                                }
+                            }
+                        }
+                    }
+                }
+                if let Some(g) = b.group.as_mut() {
+                    for c in g.choices.iter_mut() {
+                        visit(&mut c.body, from, labels, ki, t);
+                    }
+                    if let Some((_, rest)) = g.gather.as_mut() {
+                        visit(rest, from, labels, ki, t);
+                    }
+                }
+            }
+            let mut rng = Lcg(self.t.data.iter().take(6).fold(0x9E37u64, |a, v| a.wrapping_mul(31).wrapping_add(*v as u64)));
+            visit(&mut prog.root, None, &labels, &knot_index, &mut rng);
+            for (i, k) in prog.knots.iter_mut().enumerate() {
+                visit(&mut k.body, Some(i), &labels, &knot_index, &mut rng);
+                for st in k.stitches.iter_mut() {
+                    visit(&mut st.body, Some(i), &labels, &knot_index, &mut rng);
+                }
+            }
         }
         prog.globals = self.globals.clone();
         prog.lists = self.lists.clone();
@@ -779,7 +848,13 @@ impl<'a> Gen<'a> {
         }
         let gather = if has_gather {
             let label = if self.p.labels && self.t.chance(1, 4) {
-                Some(self.new_label(sc))
+                let l = self.new_label(sc);
+                if let (Some(k), false) = (sc.kidx, sc.path.is_empty()) {
+                    if sc.kind == KnotKind::Plain && depth == 0 {
+                        self.gather_labels.push((k, format!("{}.{}", sc.path, l)));
+                    }
+                }
+                Some(l)
             } else {
                 None
             };
@@ -912,6 +987,23 @@ impl<'a> Gen<'a> {
                     }
                 }
                 Stmt::Line(self.text_line(sc, false))
+            }
+            8 if self.p.block_sequences && !in_func && self.t.chance(1, 2) => {
+                let kind = match self.t.pick(3) {
+                    0 => SeqKind::Stopping,
+                    1 => SeqKind::Cycle,
+                    _ => SeqKind::Once,
+                };
+                let nb = 2 + self.t.pick(2);
+                let mut br = vec![];
+                for _ in 0..nb {
+                    let mut lines = vec![self.text_line(sc, false)];
+                    if self.t.chance(1, 3) {
+                        lines.push(self.text_line(sc, false));
+                    }
+                    br.push(lines);
+                }
+                Stmt::SeqBlock(kind, br)
             }
             8 => {
                 // call statement
